@@ -9,6 +9,11 @@
 #include "world.h"
 #include "peek.h"
 #include "vsched.h"
+#include "ossl.h"
+#include "keys.h"
+extern "C" {
+#include "crypto/cryptoApi.h"
+}
 
 namespace {
 
@@ -26,6 +31,9 @@ struct Shared {
     sslKeys_t *skeys = nullptr;
     sslKeys_t *ckeys_shared = nullptr;
     int server_kind = KK_EC256;
+    bool crl_mode = false;                   // clients validate strictly; a CRL thread inserts / clears CRLs in the global CRL cache
+    psX509Crl_t *crl[2] = { nullptr, nullptr };   // [0] revokes nothing, [1] revokes the server's certificate (both authenticated against the CA)
+    psX509Cert_t *ca = nullptr;
 };
 
 struct ThreadCtx {
@@ -53,6 +61,7 @@ void run_conn(ThreadCtx &T, const Op &op, int opi) {
     if (tls13) { pc.suites = { TLS_AES_128_GCM_SHA256 }; }
     else if (T.sh->server_kind == KK_EC256) { pc.suites = { (uint16_t) (ver == 0 && (op.c & 2) ? TLS_ECDHE_ECDSA_WITH_AES_128_GCM_SHA256 : TLS_ECDHE_ECDSA_WITH_AES_128_CBC_SHA) }; }
     else { pc.suites = { (uint16_t) ((op.c & 2) ? TLS_RSA_WITH_AES_128_CBC_SHA : (ver == 0 ? TLS_ECDHE_RSA_WITH_AES_128_GCM_SHA256 : TLS_ECDHE_RSA_WITH_AES_128_CBC_SHA)) }; }
+    if (T.sh->crl_mode) { pc.cb_c = CB_STRICT; }
     pc.groups_c = { (uint16_t) ((op.c & 1) ? 24 : 23) };     // secp384r1 / secp256r1: alternates the shared ephemeral-key cache between hit and regenerate
     if (op.k == "full") { vsim_set_node(NODE_HARNESS); matrixSslClearSessionId(T.sid); }
     // what is presented
@@ -106,6 +115,15 @@ int32 ticket_cb(void *keys, unsigned char name[16], short found) {
     return found ? 0 : -1;
 }
 
+void run_crl(ThreadCtx &T, const Op &op, int opi) {
+    Outcome o; o.thread = T.idx; o.opi = opi;
+    vsim_set_node(NODE_HARNESS);
+    if (op.k == "crl_clear") { o.kind = "crl_clear"; o.inv = vs_event_seq(); psCRL_RemoveAll(); o.ret = vs_event_seq(); }
+    else { int which = (int) (op.b & 1); o.kind = which ? "crl_add_revoking" : "crl_add_clean"; o.inv = vs_event_seq(); o.rc = psCRL_Update(T.sh->crl[which], 0); o.ret = vs_event_seq(); }
+    T.out.push_back(o);
+    T.fp = mix64(T.fp, hash_str(o.kind.c_str()));
+}
+
 void thread_main(int idx, void *arg) {
     ThreadCtx &T = *(ThreadCtx *) arg;
     (void) idx;
@@ -113,6 +131,7 @@ void thread_main(int idx, void *arg) {
         const Op &op = T.ops[i];
         if (op.k == "full" || op.k == "resume") { run_conn(T, op, (int) i); }
         else if (op.k == "rotate") { run_rotate(T, op, (int) i); }
+        else if ((op.k == "crl_add" || op.k == "crl_clear") && T.sh->crl_mode) { run_crl(T, op, (int) i); }
         vs_point(VS_K_YIELD);
     }
 }
@@ -134,7 +153,9 @@ static Plan c20_gen(uint64_t seed, int tier, uint64_t index) {
     static const int MASKS[] = { 0x1f, 0x1f, 0x11, 0x13, 0x1d, 0x19 };    // all; mutex+yield only; +alloc; ...
     p.cfg["kmask"] = MASKS[r.below(6)];
     if (r.chance(1, 4)) { p.cfg["pct"] = 1 + (int64_t) r.below(3); p.cfg["pspan"] = 200 + (int64_t) r.below(6000); }
-    if (r.chance(1, 2)) { p.cfg["tcb"] = 1; }      // the server application registers a session-ticket key callback
+    if (r.chance(1, 2)) { p.cfg["tcb"] = 1; }
+    bool crl = r.chance(1, 3);
+    if (crl) { p.cfg["crl"] = 1; p.cfg["sid_kind"] = KK_RSA2048; }   // psX509AuthenticateCRL of this tree rejects every ECDSA-signed CRL (observation, DESIGN 16.8): RSA identities only      // the server application registers a session-ticket key callback
     int rotates = 0;
     for (int t = 0; t < nt; t++) {
         int nops = 2 + (int) r.below(3);
@@ -149,6 +170,12 @@ static Plan c20_gen(uint64_t seed, int tier, uint64_t index) {
             else if (k < 16 || rotates >= 2) { if (r.chance(1, 2)) { ver = (int) r.below(3); tick = (int) r.below(2); suite_bit = (int64_t) r.below(2) * 2; c = (c & 1) | suite_bit; } p.ops.push_back(Op("full", t, ver, c, tick)); }
             else { rotates++; p.ops.push_back(Op("rotate", t, 0, (int64_t) r.below(3))); }
         }
+    }
+    if (crl) {
+        // one revoking insertion and at most one remover (clean CRL of the same issuer, or clear), at seeded positions of seeded threads
+        auto insert_at = [&](const Op &o) { size_t pos = (size_t) r.below(p.ops.size() + 1); p.ops.insert(p.ops.begin() + (long) pos, o); };
+        insert_at(Op("crl_add", (int64_t) r.below((uint64_t) nt), 1));
+        if (r.chance(2, 3)) { insert_at(r.chance(1, 2) ? Op("crl_clear", (int64_t) r.below((uint64_t) nt)) : Op("crl_add", (int64_t) r.below((uint64_t) nt), 0)); }
     }
     return p;
 }
@@ -176,6 +203,7 @@ static std::vector<Plan> c20_fixed(int tier) {
 static RunResult c20_exec(const Plan &p) {
     RunResult res;
     vsim_run_reset(p.seed);
+    ossl_seed(p.seed);          // OpenSSL only signs the CRLs of this run; its randomness is part of the run's seed
     sim_global_open();
     harness_prewarm();
     int nt = (int) p.get("threads", 2); if (nt < 1) { nt = 1; } if (nt > VS_MAX_THREADS) { nt = VS_MAX_THREADS; }
@@ -192,6 +220,21 @@ static RunResult c20_exec(const Plan &p) {
     }
     std::vector<ThreadCtx> T((size_t) nt);
     bool setup_ok = sh.skeys != nullptr;
+    std::string crl_err;
+    if (p.get("crl") && setup_ok) {
+        sh.crl_mode = true;
+        struct vsim_keymat km; vsim_keymat(sh.server_kind, &km);
+        vsim_set_node(NODE_HARNESS);
+        if (psX509ParseCert(nullptr, km.ca, (uint32) km.caLen, &sh.ca, 0) < 0) { setup_ok = false; crl_err = "CA parse"; }
+        for (int i = 0; i < 2 && setup_ok; i++) {
+            Bytes der;
+            if (!ossl_make_crl(sh.server_kind, i == 1, der, &crl_err)) { setup_ok = false; break; }
+            if (psX509ParseCRL(nullptr, &sh.crl[i], der.data(), (int32) der.size()) < 0) { setup_ok = false; crl_err = "psX509ParseCRL"; break; }
+            int arc = psX509AuthenticateCRL(sh.ca, sh.crl[i], nullptr);
+            if (getenv("VSIM_DUMP_CRL")) { FILE *f = fopen((std::string(getenv("VSIM_DUMP_CRL")) + (arc < 0 ? ".bad" : ".good") + std::to_string(i)).c_str(), "wb"); if (f) { fwrite(der.data(), 1, der.size(), f); fclose(f); } }
+            if (arc < 0) { setup_ok = false; crl_err = "psX509AuthenticateCRL rc=" + std::to_string(arc) + " kind=" + std::to_string(sh.server_kind); break; }
+        }
+    }
     bool share = p.get("ckshare") != 0;
     KeySpec ck; ck.ca_mask = 1u << sh.server_kind;
     vsim_set_node(NODE_CLIENT);
@@ -204,7 +247,7 @@ static RunResult c20_exec(const Plan &p) {
     }
     for (auto &op : p.ops) { if (setup_ok) { T[(size_t) ((uint64_t) op.a % (uint64_t) nt)].ops.push_back(op); } }
     vs_stats_t st; memset(&st, 0, sizeof st);
-    if (!setup_ok) { res.harness_error = true; res.detail = "key setup failed"; }
+    if (!setup_ok) { res.harness_error = true; res.detail = "key setup failed " + crl_err; }
     else {
         vs_cfg_t cfg; cfg.seed = derive(p.seed, "sched", 0); cfg.switch_den = (unsigned) p.get("sden", 8); cfg.kind_mask = (unsigned) p.get("kmask", 0x1f);
         cfg.pct_depth = (int) p.get("pct", 0); cfg.pct_span = (unsigned) p.get("pspan", 2000);
@@ -222,6 +265,23 @@ static RunResult c20_exec(const Plan &p) {
             if (res.violation) { break; }
             if (o.kind != "full" && o.kind != "resume") { continue; }
             std::string ctx = std::string(VN[o.ver]) + "," + o.kind + "," + o.mech;
+            // CRL cache: is the revoking CRL in the table in some / every sequential order consistent with the history?
+            bool revoke_possible = false, revoke_certain = false;
+            if (sh.crl_mode) {
+                const Outcome *add = nullptr, *rem = nullptr;
+                for (auto &x : all) { if (x.kind == "crl_add_revoking" && x.rc >= 0) { add = &x; } else if (x.kind == "crl_clear" || (x.kind == "crl_add_clean" && x.rc >= 0)) { rem = &x; } }
+                if (add) {
+                    bool removed_before = rem && rem->inv > add->ret && rem->ret < o.inv;          // remover entirely between the insertion and this connection
+                    bool remover_harmless = !rem || rem->ret < add->inv || rem->inv > o.ret;       // remover entirely before the insertion, or after this connection
+                    revoke_possible = add->inv < o.ret && !removed_before;
+                    revoke_certain = add->ret < o.inv && remover_harmless;
+                }
+            }
+            if (o.ok && !o.resumed_s && revoke_certain) {
+                res.violate("revoked_certificate_accepted", ctx, "T" + std::to_string(o.thread) + " op " + std::to_string(o.opi) + ": a full handshake completed although the CRL revoking the server certificate had been inserted (and not removed) before it started");
+                break;
+            }
+            if (!o.ok && revoke_possible) { res.count("conn.refused_revoked_certificate"); continue; }
             if (!o.ok) {
                 res.violate("session_failed_under_concurrency", ctx, "T" + std::to_string(o.thread) + " op " + std::to_string(o.opi) + " (" + ctx + "): the handshake did not complete (client err " + std::to_string(o.err_c) + ", server err " +
                             std::to_string(o.err_s) + ") although it completes in every sequential order of the same operations");
@@ -272,12 +332,13 @@ static RunResult c20_exec(const Plan &p) {
     for (auto &t : T) { if (t.sid) { matrixSslDeleteSessionId(t.sid); } if (t.ckeys && !share) { matrixSslDeleteKeys(t.ckeys); } }
     if (sh.ckeys_shared) { matrixSslDeleteKeys(sh.ckeys_shared); }
     if (sh.skeys) { matrixSslDeleteKeys(sh.skeys); }
+    if (sh.crl_mode) { psCRL_RemoveAll(); for (int i = 0; i < 2; i++) { if (sh.crl[i]) { psX509FreeCRL(sh.crl[i]); } } if (sh.ca) { psX509FreeCert(sh.ca); } }
     sim_global_close();
     return res;
 }
 
 static ModuleRegistrar reg({ "C20", "threads", "exploration",
-    "seeded plans: 2-4 real threads x 2-4 operations each (full / id-resumed / ticket-resumed / TLS 1.3 PSK-resumed handshake + data + close over TLS 1.1/1.2/1.3, alternating ECDHE curves; ticket-key rotation) "
+    "seeded plans: 2-4 real threads x 2-4 operations each (full / id-resumed / ticket-resumed / TLS 1.3 PSK-resumed handshake + data + close over TLS 1.1/1.2/1.3, alternating ECDHE curves; ticket-key rotation; CRL cache insert / replace / clear with strictly validating clients) "
     "against one shared server key set, a shared or per-thread client key set, the global session cache and PRNG; schedule = seeded choice of the next thread at every seam call "
     "(mutex lock/unlock, allocation, clock, entropy; per-run subset and switch probability 1..1/256, or PCT-style priorities with 1-3 seeded priority drops); fixed aimed plans: two threads on different curves, "
     "all version pairs. Oracles: ThreadSanitizer (tsan build) / AddressSanitizer (asan build) clean, no deadlock (wait-for check at every block), every session completes with exact data, resumption decisions allowed by "
@@ -286,5 +347,5 @@ static ModuleRegistrar reg({ "C20", "threads", "exploration",
     { "core (osdep mutexes run for real, uncontended by construction)", "crypto (PRNG, ECC, X.509 validation)", "matrixssl (sessions, session cache, ticket keys, ECDHE cache)" },
     { "thread scheduler (token passing, hidden from TSan)", "transport", "applications", "clock", "entropy", "allocator front-end" },
     { "preemption happens only at seam calls; a race is still reported by TSan's happens-before analysis when both accesses execute in the run",
-      "CRL cache operations are not part of the workload" },
+      "one revoking CRL insertion and at most one remover per run (keeps the allowed-outcome computation exact)" },
     "tsan", c20_fixed, false });
